@@ -4,8 +4,8 @@ import core
 from concurrent.futures import ThreadPoolExecutor
 from checks.generic import compile_gen, first_index, COMMON_TRUSTED
 
-PROPS = ["c19_wire_only_public", "c19_no_private_on_wire", "c19_private_stays_local", "c19_private_file_mode", "c19_old_existing_mode_refuted", "c19_agent_replace", "c19_agent_replace_faulty", "c19_best_effort_cleanup_refuted",
-         "c19_offered_accepted_spec", "c19_old_p384_refuted", "c19_wire_only_public_web", "c19_no_private_on_wire_web",
+PROPS = ["c19_wire_only_public", "c19_no_private_on_wire", "c19_private_stays_local", "c19_private_file_mode", "c19_old_existing_mode_refuted", "c19_agent_replace", "c19_agent_replace_repeated", "c19_install_is_upsert", "c19_other_labels_untouched", "c19_normalised_comment_refuted", "c19_agent_replace_faulty", "c19_best_effort_cleanup_refuted",
+         "c19_offered_accepted_spec", "c19_offered_certified_any_ca", "c19_server_keys_enumerated", "c19_value_form_signer_refuted", "c19_old_p384_refuted", "c19_wire_only_public_web", "c19_no_private_on_wire_web",
          "c19_only_designated_agent", "c19_designated_agent_upsert", "c19_no_agent_adds_nothing", "c19_unusable_agent_adds_nothing",
          "c19_install_only_designated", "c19_agent_discovery_refuted"]
 
@@ -22,13 +22,15 @@ TRUSTED = [
 
 # further correspondences printed by the same case file: (definition, idx file, label, count definition)
 EXTRA_CORR = {
-    "CasesC19A.v": [("c19ae_mismatches", "CasesC19AE.idx", "which agent (library): success flag and the listing of EVERY agent of the scene (the one SSH_AUTH_SOCK names and the decoys at conventional places) after WithAddedKeyUpsertCertIntoAgent / UpsertCertIntoAgent in every agent environment situation = model world_upsert (%s scenes)", "c19ae_ncases")],
+    "CasesC19A.v": [("c19al_mismatches", "CasesC19AL.idx", "labels: listing after every installation of the real WithAddedKeyUpsertCertIntoAgentConnection, again and again under one label and its neighbours, for every class of label byte string (plain, space, tab, line end, control bytes, multi-byte characters, Unicode spaces, 3-5 kB, empty, prefix of another, other case, outer spaces, space runs, random bytes) = model install_cert (%s installations)", "c19al_ncases"),
+                    ("c19ae_mismatches", "CasesC19AE.idx", "which agent (library): success flag and the listing of EVERY agent of the scene (the one SSH_AUTH_SOCK names and the decoys at conventional places) after WithAddedKeyUpsertCertIntoAgent / UpsertCertIntoAgent in every agent environment situation = model world_upsert (%s scenes)", "c19ae_ncases")],
     "CasesC19.v": [("c19w_mismatches", "CasesC19W.idx", "client runs with the web-browser login (stored CLI token, verifyToken, browser command, cookie received on the local listener): recorded requests, files, agent labels = model setup_wire_web / install (%s runs)", "c19w_ncases"),
                    ("c19i_mismatches", "CasesC19I.idx", "which agent (client): agents of the scene and files under HOME after insertSSHCertIntoAgentORWriteToFilesystem in every agent environment situation = model install_ssh_env (%s scenes)", "c19i_ncases")],
 }
 # (definition, class, idx file, oracle text)
 VIOLATING = {
-    "CasesC19A.v": [("c19a_violating", "agent-replace", "CasesC19A.idx", "after an installation the observed agent listing breaks 'exactly one certificate under the label, nothing else removed, nothing added on error'"),
+    "CasesC19A.v": [("c19al_violating", "agent-label", "CasesC19AL.idx", "after an installation under a label the observed listing does not show exactly the new certificate under that label, or still holds a certificate an earlier installation under the label put there, or lost another identity"),
+                    ("c19a_violating", "agent-replace", "CasesC19A.idx", "after an installation the observed agent listing breaks 'exactly one certificate under the label, nothing else removed, nothing added on error'"),
                     ("c19ae_violating", "private-key-to-undesignated-agent", "CasesC19AE.idx", "the new identity (private key + certificate) is observed in an agent that SSH_AUTH_SOCK does not name")],
     "CasesC19.v": [("c19_violating", "private-exposed", "CasesC19.idx", "a recorded request carries private key material or a private key file is accessible to group/others"),
                    ("c19w_violating", "private-exposed", "CasesC19W.idx", "a recorded request of a web-login run carries private key material or a private key file is accessible to group/others"),
